@@ -210,7 +210,7 @@ PROPS.update({
 
 PROPS.update({
     "C11": {
-        "level_text": 'Bounded-exhaustive exploration: for every matrix of a stated menu (log-odds matrices M=2..6, thorough ..8, from 16 count rows x pseudocounts x 4 background/wildcard configurations; 23 hand matrices x up to 15 background / wildcard configurations) the exact score distribution is obtained by enumerating all K\'^M words, and ScoreDistribution is queried at every distinct attainable score, +-1 and +-1/2 discretisation step, far below/above, and at every attainable tail probability, midpoints, every tabulated sf value and fixed p; sf monotone in [0,1], pvalue within P(S>=s+d)..P(S>=s-d) (d = (M/2+1) steps), pvalue monotone, pvalue(score(p)) <= p. Structural clauses also for M in {12,16,20}. Score queries include +-1e7 .. +-f32::MAX.',
+        "level_text": 'Bounded-exhaustive exploration: for every matrix of a stated menu (log-odds matrices M=2..6, thorough ..8, from 16 count rows x pseudocounts x 4 background/wildcard configurations; 23 hand matrices x up to 15 background / wildcard configurations) the exact score distribution is obtained by enumerating all K\'^M words, and ScoreDistribution is queried at every distinct attainable score, +-1 and +-1/2 discretisation step, far below/above, and at every attainable tail probability, midpoints, every tabulated sf value and fixed p; sf monotone in [0,1], pvalue within P(S>=s+d)..P(S>=s-d) (d = (M/2+1) steps), pvalue monotone, pvalue(score(p)) <= p. Structural clauses also for M in {12,16,20}. Score queries include +-1e7 .. +-f32::MAX. Every matrix with an oracle whose background gives the wildcard no mass is also checked as a PROTEIN matrix carrying the same score distribution (DNA columns at protein ranks 19, 2, 11, 6, all other residues background 0 with copies of cells of their row): same grids, same brute-force oracle.',
         "level_note": 'Trusted: the 40-line brute-force oracle (f64, background normalised by its f32 total, 1e-6 absolute allowance on probabilities); the step is recovered from the public unscale(). Exploration, not model checking: the property quantifies over inputs only.',
         "technique": 'bounded-exhaustive enumeration of matrices x backgrounds x score/p grids against a brute-force exact distribution',
         "level": "exploration", "package": "vx-pval", "profiles": ["rel", "chk"],
